@@ -736,7 +736,12 @@ def opaque_format(it, fmt, args):
         seq = pv.seq_of([lift(a) for a in args])
     except Unsupported:
         seq = pv.EMPTY_SEQ
-    return SStr(py_format(tag, seq))
+    r = py_format(tag, seq)
+    if isinstance(fmt, str):
+        import re as _re
+        if _re.sub(r'%[-0-9.]*[sdr]', '', fmt).strip():
+            it.ctx.assume(z3.Length(r) > 0)      # literal text of the format string survives formatting
+    return SStr(r)
 
 
 # --------------------------------------------------------------------------
